@@ -12,7 +12,7 @@ CLAIM = ("Every {{{ }}} command of the generated grammars is a probe that logs i
          "candidates (text before the first tab, extending the typed text) and the acceptance of earlier words must be those the spec "
          "prescribes. Commands sit at top level, inside words after a literal head, under [], ..., | and ||, behind definitions and "
          "bash-specific definitions.")
-NOTE = ("Translation validation per command line; the theorem calls_spec over a BashRt model is open. The probes' output does not depend "
+NOTE = ("Translation validation per command line. Proved over the model of the bash template with call recording (Model/BashRtCalls.lean; its call sequence is compared with the probe log of the real bash, in order, on every explored command line): calls_have_template_form (every call passes (\"\", \"\"), (typed text, \"\") or (rest of a word, part already read), for all tables and command outputs) and recording_transparent; the theorem calls_spec (the calls are exactly those the grammar allows) is open. The probes' output does not depend "
         "on their arguments (assumed behaviour of the external command). Trusted: runner stub, probe functions, Spec.Complete.")
 TECHNIQUE = "probe commands in real bash (invocation log + COMPREPLY) against the executable Lean spec of calls and candidates"
 DESIGN_REF = "§3 C17, Appendix D"
